@@ -29,11 +29,10 @@ for d in $DEMOS; do cp $d $D/$(basename $d).txt; done
 [ -f SEED_NOTES.md ] && cp SEED_NOTES.md $D/NOTES.md
 # run the checks against /repo with the patch applied
 cd /repo && git apply $D/patch.diff || { echo "patch does not apply to /repo"; exit 2; }
-fired=""; silent=""
-for P in $(python3 -c "import json;print(' '.join(c['property_id'] for c in json.load(open('/verif/MANIFEST.json'))['checks']))"); do
-  out=$(/verif/bin/gotsverif -repo /repo -prop $P -tier quick -evidence /tmp/seed_ev.json 2>&1); r=$?
-  if [ $r -ne 0 ]; then fired="$fired $P"; [ "$P" = "$PROP" ] && echo "$out" | grep -E "VIOLATED|UNDECIDED" -A1 | cut -c1-300 | head -6; else silent="$silent $P"; fi
-done
+# the twenty checks only read /repo: run them side by side
+fired=$(python3 -c "import json;print('\n'.join(c['property_id'] for c in json.load(open('/verif/MANIFEST.json'))['checks']))" | xargs -P 10 -I{} sh -c '/verif/bin/gotsverif -repo /repo -prop {} -tier quick -evidence /tmp/seed_ev_{}.json >/tmp/seed_out_{}.txt 2>&1 || echo {}' | sort | tr '\n' ' ')
+[ -f /tmp/seed_out_$PROP.txt ] && grep -E "VIOLATED|UNDECIDED" -A1 /tmp/seed_out_$PROP.txt | cut -c1-300 | head -6
+rm -f /tmp/seed_ev_*.json /tmp/seed_out_*.txt
 git -C /repo checkout -- .
 python3 - "$NAME" "$PROP" "$NEEDS" "$fired" "$DEMOS" <<'PY'
 import json,sys
